@@ -87,6 +87,32 @@ def run(chk):
     cc = list(corpus_cases())
     chk.bounded('valid corpus: strict output passes the independent validator', cc, check_valid, classify=lambda c: c[1], bound='every class variant of the table-driven generator (minimal, each optional property, all optional) with 2-3 value classes')
 
+    # ---- values re-used across objects and versions: constructors given timestamp objects read from objects of the other spec version (other precision rules)
+    import stix2, datetime as dtm
+    def reuse_cases():
+        for text in ('2017-01-01T12:34:56.123456Z', '2017-01-01T12:34:56Z', '2017-01-01T12:34:56.5Z', '2017-01-01T12:34:56.120Z'):
+            d21 = stix2.v21.Identity(name='n', created=text, modified=text); d20 = stix2.v20.Identity(name='n', identity_class='individual', created=text, modified=text)
+            ind21 = stix2.v21.Indicator(pattern="[file:name = 'a']", pattern_type='stix', valid_from=text, created=text, modified=text)
+            for ver, label, cat, d in cc:
+                if cat != 'objects' or not label.endswith(':minimal') or 'created' not in d or d['type'] in ('bundle',): continue
+                for donor_name, donor in (('2.1 created', d21.created), ('2.0 created', d20.created), ('2.1 valid_from', ind21.valid_from), ('aware datetime', dtm.datetime(2017, 1, 1, 12, 34, 56, 123456, tzinfo=dtm.timezone.utc))):
+                    yield (ver, label, d, donor_name, text, donor)
+
+    def check_reuse(case):
+        ver, label, d, donor_name, text, donor = case
+        cls = stix2.registry.class_for_type(d['type'], ver)
+        kw = {k: v for k, v in d.items() if k != 'type'}
+        for k in ('created', 'modified', 'valid_from', 'first_observed', 'last_observed', 'first_seen', 'published'):
+            if k in kw: kw[k] = donor
+        try: o = cls(**kw)
+        except Exception as ex:
+            if O.family(ex): return None
+            return (f'fault-escape#{type(ex).__name__}', f'{label} given {donor_name} of {text}: {type(ex).__name__}: {ex}', {})
+        out = json.loads(o.serialize()); errs = T.validate(out, ver, 'objects')
+        if errs: return (f'emit#{label.split(":")[2]}:re-used timestamp object:{errs[0].split(":")[0].split(".")[-1]}', f'{label} built with the {donor_name} timestamp object of {text} emits invalid content: {errs[:2]}', {'output': out})
+    chk.bounded('timestamp objects re-used across objects and spec versions', list(reuse_cases()), check_reuse, classify=lambda c: (c[1], c[3], c[4]),
+                bound='every versioned object type of both versions (minimal form) x 4 instants (0, 1, 3, 6 fraction digits) x 4 donors (2.1 / 2.0 created, 2.1 valid_from, aware datetime)')
+
     def fault_cases():
         for ver, label, cat, d in cc:
             if not (label.endswith(':minimal') or label.endswith(':all-optional')): continue
